@@ -29,6 +29,13 @@ History (keys C04:history:...): per work item ONE long-lived TxMsg and ONE long-
   header-only truncation between the groups.  Whenever the long-lived object accepts a datagram it must read exactly
   what the layout says about THAT datagram (same comparison as for a fresh object - in particular no burst when the
   datagram has none).  After a ValueError nothing is demanded until the next successful parse.
+  In-place edits (every case of a base chunk, every 64th of a burst-pattern chunk, every 256th of a sweep): ONE message
+  object encodes the case, is then edited in place - burst element flipped at first / middle / last position, whole
+  burst content slice-assigned, fn, tn, pwr / rssi, toa256, ci, tsc, tsc_set reassigned, never replacing the burst
+  container - and encodes again after every edit: octets == reference octets of what the object now holds
+  (C04:history:*:enc-after-inplace-change:<edit>).  A decoder object used before parses the reference encoding, must
+  re-encode to the same octets (…:reencode-after-parse) and, after its PARSED burst and its fn were edited in place, to
+  the reference octets of the edited message (…:reencode-after-inplace-change:<edit>).
 Oracle 2 (interop leg, `interop_leg`): through vlib/trxcon_drv.py (subprocess driver around trxcon's
   real trx_if.c, built from $VERIF_REPO).  Skipped with coverage["interop_leg"] = "driver not available" when
   it cannot be imported.
@@ -345,6 +352,69 @@ def extras(c, D):
                                           tsc=c["tsc"], ci=c["ci"])
 
 
+def inplace_visit(e, c):
+    """One message object encodes case c, is then edited IN PLACE step by step (burst elements, whole burst content by
+    slice assignment, header fields - E.inplace_plan) and encodes again after every edit: the octets must be the
+    reference octets of what the object holds now.  Then a decoder object that was used before parses the reference
+    encoding of c, must re-encode to the same octets, has its parsed burst and its fn edited in place and must
+    re-encode to the reference octets of the edited message.  -> (number of encodes compared, [(key, msg)])"""
+    dm = e["dm"]
+    cls, ver, legacy = c["cls"], c["ver"], c["legacy"]
+    fam = "C04:history:%s:v%d" % (cls, ver)
+    out = []
+    n = 0
+    steps = list(E.inplace_plan(c))
+
+    def enc(obj, what, nc, label):
+        try:
+            got = bytes(obj.gen_msg(legacy))
+        except Exception as ex:
+            out.append(("%s:%s:raises-%s" % (fam, what, type(ex).__name__), "gen_msg() after in-place edit %s raised %s(%s)"
+                        % (label, type(ex).__name__, ex)))
+            return
+        ref = ref_octets(e, nc)
+        if got != ref:
+            i = next((j for j in range(min(len(got), len(ref))) if got[j] != ref[j]), min(len(got), len(ref)))
+            out.append(("%s:%s:%s" % (fam, what, label), "after the in-place edit '%s' of the same object gen_msg() emits octets that "
+                        "are not the layout's encoding of the object's content: first difference at octet %d (toolkit %s, layout %s), "
+                        "lengths %d/%d" % (label, i, got[i:i + 1].hex() or "-", ref[i:i + 1].hex() or "-", len(got), len(ref))))
+
+    try:
+        m = E.build_tk(dm, c)
+        m.gen_msg(legacy)
+    except Exception:
+        return 0, []                # reported by the encoder leg
+    for label, op, nc in steps:
+        E.apply_inplace(m, op)
+        n += 1
+        enc(m, "enc-after-inplace-change", nc, label)
+        if out:                     # later edits build on this one: report the first edit that breaks, not its echoes
+            break
+    # decoder object used before -> parse -> re-encode -> edit the parsed burst in place -> re-encode
+    D = ref_octets(e, c)
+    p = dm.TxMsg() if cls == "tx" else dm.RxMsg()
+    try:
+        p.parse_msg(bytes(D[:HDR[(cls, ver)]]) if cls == "tx" else bytearray(D[:HDR[(cls, ver)]]))
+        p.parse_msg(bytes(D) if cls == "tx" else bytearray(D))
+    except Exception:
+        return n, out               # acceptance of valid encodings is C01's business
+    n += 1
+    enc(p, "reencode-after-parse", c, "none")
+    cur = c
+    if c["bl"] is not None:
+        label, op, cur = steps[0]                       # flip the first element of the PARSED burst, in place
+        E.apply_inplace(p, op)
+        n += 1
+        enc(p, "reencode-after-inplace-change", cur, label)
+    if out:
+        return (n[0] if isinstance(n, list) else n), out
+    cur = dict(cur, fn=(c["fn"] + 1) % E.HYPER)
+    p.fn = cur["fn"]
+    n += 1
+    enc(p, "reencode-after-inplace-change", cur, "fn")
+    return n, out
+
+
 _RAMP = {bl: tuple(E.soft_bits(bl, ("ramp",))) for bl in (148, 296, 444, 592, 740)}
 _ALT = {bl: E.hard_bits(bl, ("alt",)) for bl in (148, 444)}
 _RAMP148 = _RAMP[148]
@@ -475,6 +545,7 @@ def work(chunk):
     sample = None
     n = 0
     nextra = 0
+    ninpl = [0, 0]
     sweep = chunk[3] if chunk[0] == "sweep" else None
     for i, (kind, cls, data, c) in enumerate(seq_chunk(e, chunk)):
         if kind.startswith("case"):
@@ -495,6 +566,15 @@ def work(chunk):
                 if key not in vkeys:
                     vkeys.add(key)
                     viol.append((key, c, msg))
+            if E.inplace_here(chunk, n - 1):
+                ne, ir = inplace_visit(e, c)
+                ninpl[0] += 1
+                ninpl[1] += ne
+                for key, msg in ir:
+                    nviol += 1
+                    if key not in vkeys:
+                        vkeys.add(key)
+                        viol.append((key, {"leg": "inplace", "case": c}, msg))
             if kind == "case-fresh-only":
                 continue
         else:
@@ -506,7 +586,8 @@ def work(chunk):
                 vkeys.add(key)
                 viol.append(history_viol(e, H, cls, key, msg, hist, (["chunk", chunk], i)))
     cov = dict(stat, evaluations=n, distinct_cases=len(keys), distinct_nontrivial=good, octet_comparisons=n,
-               reading_comparisons=n, by_class=by_class, by_group=by_group, chunks=1, hist_extra_datagrams=nextra)
+               reading_comparisons=n, by_class=by_class, by_group=by_group, chunks=1, hist_extra_datagrams=nextra,
+               hist_inplace_visits=ninpl[0], hist_inplace_encodes=ninpl[1])
     cov.update(H.cov)
     return {"cov": cov, "viol": viol, "nviol_extra": nviol - len(viol),
             "samples": [dict(sample, ref_octets_head=ref_octets(e, sample)[:12].hex())] if sample else []}
@@ -757,7 +838,11 @@ def run(ctx):
                  "other-version header and a same-kind datagram of another burst length (after every case of base chunks, every 8th case "
                  "of burst-pattern chunks, every 32nd case of sweeps, every mutation base and between mutation groups; of the same-shape datagrams of a sweep every "
                  "8th, of an all-FN sweep every 32nd), is also parsed into ONE long-lived TxMsg / "
-                 "RxMsg per work item and compared with the reference reading whenever accepted. Interop leg: %s; "
+                 "RxMsg per work item and compared with the reference reading whenever accepted. In-place edits (hist_inplace_*): at "
+                 "every case of a base chunk, every 64th of a burst-pattern chunk and every 256th of a sweep one message object encodes, "
+                 "is edited in place (burst element first/middle/last, burst slice-assigned, fn, tn, pwr/rssi, toa256, ci, tsc, tsc_set) "
+                 "and re-encodes after each edit: octets must equal the reference octets of the edited content; a used decoder object "
+                 "parses, re-encodes, gets its parsed burst and fn edited in place and re-encodes likewise. Interop leg: %s; "
                  "rx = the base / sweep / burst-pattern cases of the rx v0 points with not-carried fields None (legacy off/on, TN; "
                  "in quick the ToA sweep at TN 0 only - with legacy on at the mid base point only -, in thorough the all-FN sweep with legacy off only) encoded by the toolkit and decoded by trxcon's trx_data_rx_cb, tx = the cases "
                  "of the tx v0 points without legacy padding (FN over the boundary set) given to trx_if_handle_phyif_burst_req and parsed back by TxMsg "
@@ -780,6 +865,9 @@ def replay(ctx, case):
     if leg == "mut":
         st, r = check_reading(e, case["cls"], bytes.fromhex(case["data"]))
         for k, m in r:
+            ctx.violation(k, case, m)
+    elif leg == "inplace":
+        for k, m in inplace_visit(e, case["case"])[1]:
             ctx.violation(k, case, m)
     elif leg == "history":
         hist = [bytes.fromhex(h) for h in case["history"]]
